@@ -40,6 +40,8 @@ def tangent_base_file(gname):
 
 
 def groups_for(tier, bundles=True, rn=True):
+    if os.environ.get("VERIF_GROUPS"):
+        return os.environ["VERIF_GROUPS"].split(";")
     g = list(SIMPLE)
     if rn:
         g += RN_QUICK if tier == "quick" else RN_ALL
